@@ -14,6 +14,7 @@ type Fate struct {
 	Drop    bool
 	Dup     int           // extra copies delivered (each after DupGap more)
 	Delay   time.Duration // delivery delay (0 = immediately)
+	Reflect bool          // additionally deliver a copy to the sender, as if it came from the addressee
 	DupGap  time.Duration
 	Replace []byte // if non-nil, deliver these bytes instead (tampering)
 	Note    string // free text recorded with the event
@@ -335,6 +336,11 @@ func (c *PacketConn) WriteTo(p []byte, addr net.Addr) (int, error) {
 		data := d.Data
 		if fate.Replace != nil {
 			data = fate.Replace
+		}
+		if fate.Reflect {
+			if _, ok := n.endpoints[c.addr.String()]; ok {
+				n.enqueueLocked(c.addr, d.Data, ua, d.Idx)
+			}
 		}
 		copies := 1 + fate.Dup
 		for i := 0; i < copies; i++ {
